@@ -117,6 +117,13 @@ func (m *machine) define(local int) {
 			}
 		}
 	}
+	if m.d.Int(0, 4, "devflds") == 0 {
+		def.HasDev = true
+		for k := m.d.Int(0, 2, "ndev"); k > 0; k-- {
+			def.Dev = append(def.Dev, fitmodel.DevFieldDef{Num: byte(m.d.Int(0, 3, "devnum")), Size: byte(m.d.Int(1, 4, "devsize")), Idx: byte(m.d.Int(0, 1, "devidx"))})
+		}
+		m.labels["definition-with-developer-fields"]++
+	}
 	if old := m.slots[local]; old != nil {
 		m.labels["redefinition"]++
 		if old.Global != g {
@@ -151,7 +158,45 @@ func (m *machine) data(local int, compressed bool) {
 		}
 		r.Raw = append(r.Raw, gen.FieldBytes(m.d, fd, def.BigEndian, &m.o, nil, kind)...)
 	}
+	for _, dv := range def.Dev {
+		r.Raw = append(r.Raw, m.d.Bytes(int(dv.Size), "devraw")...)
+	}
 	m.s.Recs = append(m.s.Recs, r)
+}
+
+// fieldDescription emits a field_description message (its definition on a
+// local type other than holder, then the record) that describes developer
+// field dv of the definition in force on local type holder, with a drawn base
+// type. Messages are content: they never change how local types are defined.
+func (m *machine) fieldDescription(holder int, dv fitmodel.DevFieldDef) {
+	mi := prof.Table().Msgs[206]
+	if mi == nil {
+		return
+	}
+	local := m.d.Int(0, 15, "fdesclocal")
+	if local == holder {
+		local = (local + 1) % 16
+	}
+	def := fitmodel.Rec{IsDef: true, Local: byte(local), Global: 206, BigEndian: m.d.Bool("fdescbe")}
+	vals := map[byte]byte{0: dv.Idx, 1: dv.Num, 2: []byte{0x02, 0x84, 0x86, 0x88, 0x8E, 0x01, 0x07, 0x0D}[m.d.Int(0, 7, "fdescbase")]}
+	var raw []byte
+	for _, n := range []byte{0, 1, 2} {
+		if fi := mi.Fields[n]; fi != nil && fitmodel.MustBase(fi.Base).Size == 1 && !fi.Array {
+			def.Fields = append(def.Fields, fitmodel.FieldDef{Num: n, Size: 1, Base: fi.Base})
+			raw = append(raw, vals[n])
+		}
+	}
+	if len(def.Fields) != 3 {
+		return
+	}
+	if m.slots[local] != nil {
+		m.labels["redefinition"]++
+	}
+	m.s.Recs = append(m.s.Recs, def, fitmodel.Rec{Local: byte(local), Raw: raw})
+	dc := def
+	m.slots[local] = &dc
+	m.live[local] = true
+	m.labels["field-description-for-a-live-developer-field"]++
 }
 
 // longLived builds an activity stream in which 1-3 local types carry record
@@ -476,6 +521,18 @@ func TestC13(t *testing.T) {
 						return
 					}
 					m.data(defined[d.Int(0, len(defined)-1, "which")], true)
+				},
+				"fieldDescription": func(rt *rapid.T) {
+					if m.finished {
+						return
+					}
+					for l := 0; l < 16; l++ {
+						if m.slots[l] != nil && len(m.slots[l].Dev) > 0 && l != fidLocal {
+							m.fieldDescription(l, m.slots[l].Dev[d.Int(0, len(m.slots[l].Dev)-1, "whichdev")])
+							return
+						}
+					}
+					m.define(d.Int(0, 15, "local"))
 				},
 				"dataUndefined": func(rt *rapid.T) {
 					if m.finished || len(m.s.Recs) < 6 || d.Int(0, 24, "undef") != 17 {
